@@ -84,6 +84,7 @@ def _alarm(signum, frame):
     raise Slow()
 
 
+MODEL = object()    # expect_auto: no independent expectation (replays) - only compare the library with Lean's normalize / parser
 RAISES = object()   # expect_auto: the documented quirk - the auto round trip of this value raises (normalize = none)
 
 CAP = 4.0       # wall-clock cap per library call on damaged / adversarial input (guards the harness itself)
@@ -186,6 +187,20 @@ def check_value(ctx, W, B, c, v, tag, modes=(False, True), expect_auto=None, mod
                     ctx.corr_broken(f'tlnorm: model={out[:300]} library={str(r)[:300]} ctor={inp["ctor"]} request={line[:300]}')
                     ctx.count('driver_disagreements')
             B.add(f'tlnorm {c["idx"]} {tok}', cb_norm)
+        if want is MODEL:
+            if model and not big:
+                def cb_m(out, line, st=st, r=r, inp=inp):
+                    ok = out == 'err' if st != 'ok' else False
+                    if st == 'ok' and out.startswith('ok '):
+                        try:
+                            t, cn = out[3:].rsplit(' ', 1)
+                            ok = int(cn) == r[1] and V.same(V.parse_tok(W, t), r[0])
+                        except Exception:
+                            ok = False
+                    if not ok:
+                        ctx.corr_broken(f'tldeser-auto: model={out[:300]} library={str(r)[:300]} ctor={inp["ctor"]}')
+                B.add(f'tldeser {ser.hex()} 1', cb_m)
+            continue
         if want is RAISES:
             ctx.count('auto:raises-as-documented' if st != 'ok' else 'auto:documented-raise-did-not-happen')
             if model and not big:
@@ -564,7 +579,8 @@ def replay(ctx, payload):
     inp = payload.get('input') or {}
     if isinstance(inp, dict) and 'ctor_index' in inp:
         v = _unjson(inp['value'])
-        check_value(ctx, W, B, W.ctors[inp['ctor_index']], v, 'replay')
+        shaped = inp.get('tag') in ('auto-shape', 'nested-in-bytes', 'string-with-registered-prefix')
+        check_value(ctx, W, B, W.ctors[inp['ctor_index']], v, 'replay', expect_auto=MODEL if shaped else None)
     elif isinstance(inp, dict) and 'decl' in inp:
         check_ids(ctx, W)
     elif isinstance(inp, dict) and 'workchain' in inp:
